@@ -553,6 +553,12 @@ Definition nodup_nums (fs : list file) : bool :=
     | f :: r => negb (existsb (fun g => fnum g =? fnum f) r) && go r
     end in go fs.
 
+Fixpoint sorted_le (l : list N) : bool :=
+  match l with
+  | [] => true
+  | x :: r => (match r with [] => true | y :: _ => x <=? y end) && sorted_le r
+  end.
+
 Definition inv_b (s : state) : bool :=
   (length (levels s) =? NUM_LEVELS)%nat
   && sorted_run (mem s)
@@ -563,7 +569,8 @@ Definition inv_b (s : state) : bool :=
   && forallb (fun e => es e <=? last_seq s) (all_entries s)
   && forallb (fun f => fnum f <? next_file s) (concat (levels s))
   && nodup_nums (concat (levels s))
-  && forallb (fun q => q <=? last_seq s) (snaps s).
+  && forallb (fun q => q <=? last_seq s) (snaps s)
+  && sorted_le (snaps s).
 
 (* views compared at one sequence for a given key list (run-time check used by K2
    when an observed step is not an instance of [op]) *)
